@@ -3,11 +3,13 @@ ID = 'C15'
 LEVEL = 'exploration'
 LEVEL_TEXT = ('exploration: mapping == effective @namespace rules (last declaration of a URI wins - also as postcondition of an accepted declaration -, one prefix per URI), every used URI declared, removal of a used namespace rejected, '
               'every selector keeps the (namespace URI, local name) pairs it was written with (in memory and after serialise + reparse), @namespace rules stay well-formed, undeclared '
-              'prefixes rejected - evaluated as a run-time contract on the real objects after every operation of every sequence of namespace operations up to length 3 (quick) / 4 '
+              'prefixes rejected, a detached rule (also inside a detached @media rule) carries a declaration for every URI it uses and its own serialisation re-resolves to the same pairs '
+              '- evaluated as a run-time contract on the real objects after every operation of every sequence of namespace operations up to length 3 (quick) / 4 '
               '(thorough), on two sheets with rules attached, detached and moved between them')
-LEVEL_NOTE = ('bounded, not a proof: three prefixes x two URIs, ten selector shapes (prefix|, *|, |, default, universal, attribute, descendant), five seed states; sequences are merged '
+LEVEL_NOTE = ('bounded, not a proof: three prefixes x two URIs, ten selector shapes (prefix|, *|, |, default, universal, attribute, descendant), five seed states, plus seed sheets whose selectors were written through each of five DOM routes (rule.selectorText, selectorList.selectorText, '
+              'Selector.selectorText, appendSelector, rule.cssText; sequences <= 2 quick / <= 3 thorough); sequences are merged '
               'when they reach the same observable state; expected pairs come from the construction of the selector text and the effective @namespace rules at the moment of writing; '
-              'random walks (thorough only) are samples. Ten recorded findings are excluded by sharp classes (known/C15.json)')
+              'random walks (thorough only) are samples. Eleven recorded findings are excluded by sharp classes (known/C15.json)')
 TECHNIQUE = ('bounded run-time contracts over exhaustively enumerated histories of namespace operations on the real CSSStyleSheet.namespaces / CSSNamespaceRule / Selector objects '
              '(breadth-first over distinct observable states, replay on fresh objects), seeded random walks of length 200 in the thorough tier')
 DESIGN_REF = 'DESIGN.md section 3, C15; Appendix C operation pools'
